@@ -119,3 +119,26 @@ def _decimal(eng, st, args, kwargs):
 
 import decimal as _dec
 EX.externals[_dec.Decimal] = _decimal
+
+
+# ---- ecdsa signing (A-ECDSA): a signature made with a private key verifies under the matching public key ---------------
+
+@EX.external('ecdsa.keys.SigningKey.from_string')
+def _sk_from_string(eng, st, args, kwargs):
+    priv = [a for a in args if not isinstance(a, type)][0]
+    eng.assumptions_used.add('A-ECDSA')
+    # malformed key material: the library raises (class not modelled further)
+    s_r = st.fork()
+    yield s_r, Raised(ExcVal(AnyException, (), 'ecdsa.SigningKey.from_string'))
+    yield st, ('extobj', 'SigningKey', eng.term(priv, BYTES, st))
+
+
+@EX.external('extobj:SigningKey.sign')
+def _sk_sign(eng, st, args, kwargs):
+    recv, msg = args[0], args[1]
+    eng.assumptions_used.add('A-ECDSA')
+    sig = eng.fresh_term('ecdsa_sig', BYTES_SORT, st)
+    made = eng.uf('ecdsa_signed', BYTES_SORT, BYTES_SORT, BYTES_SORT, z3.BoolSort())     # (private key, message, signature)
+    st.assume(made(recv[2], eng.term(msg, BYTES, st), sig))
+    st.assume(z3.Length(sig) == 64)
+    yield st, V(sig, BYTES)
